@@ -316,6 +316,7 @@ def run_three(spec, acc):
 
 
 PROT_SUB = "AKW"
+PROT_NONCANON = [("-", "W"), ("W", "-"), ("X", "Y"), ("Y", "?"), ("-", "A"), ("K", "X"), ("-", "-"), ("X", "?")]
 PROT_ESTS = ("hamming", "pdist", "paralinear", "logdet", "logdet_classic")
 
 
@@ -325,7 +326,16 @@ def run_protein(spec, acc):
         seqs = D.columns_to_seqs(D.matrix_columns(flat, PROT_SUB))
         if seqs[0]:
             check_seqs(seqs, "protein", True, PROT_ESTS, ENTRIES_MAIN, acc, "protein")
-    acc.sample({"protein sub-alphabet": PROT_SUB, "total": n}, "protein")
+        # the same columns with one non-canonical column inserted (a gap, X or ? facing a residue from either end of the
+        # alphabet): it is left out of the count whatever state it faces
+        if seqs[0] and n <= 2:
+            cols = D.matrix_columns(flat, PROT_SUB)
+            for extra in PROT_NONCANON:
+                for where in (0, len(cols)):
+                    new = list(cols)
+                    new.insert(where, extra)
+                    check_seqs(D.columns_to_seqs(new), "protein", True, PROT_ESTS, ("calculator",), acc, "protein-noncanon")
+    acc.sample({"protein sub-alphabet": PROT_SUB, "total": n, "non-canonical columns": ["/".join(c) for c in PROT_NONCANON]}, "protein")
 
 
 # ----------------------------------------------------------------------------- trees: implementation access
